@@ -1,6 +1,7 @@
 package httpgen
 
 import (
+	"fmt"
 	"strconv"
 	"strings"
 
@@ -266,10 +267,13 @@ func (g *Generator) generateMockOneofAssignment(
 	if !g.mockMayNest(field.Message, visiting) {
 		return false
 	}
+	// the temporary has a name of its own: a member message may itself have a oneof with a message
+	// member, whose block would otherwise shadow this one before the assignment below
+	tmp := fmt.Sprintf("oneofValue%d", g.mockNested)
 	gf.P("{")
-	gf.P("oneofValue := &", field.Message.GoIdent, "{}")
-	g.generateMockFieldAssignments(gf, field.Message, "oneofValue", visiting)
-	gf.P(target, " = &", wrapper, "{", field.GoName, ": oneofValue}")
+	gf.P(tmp, " := &", field.Message.GoIdent, "{}")
+	g.generateMockFieldAssignments(gf, field.Message, tmp, visiting)
+	gf.P(target, " = &", wrapper, "{", field.GoName, ": ", tmp, "}")
 	gf.P("}")
 	return true
 }
